@@ -99,7 +99,8 @@ Info(im, g, x, y, t) ==
         col == IdxFromN(g, n1)
         row == IdxFromN(g, n2)
         \* the pixels whose cell holds the sky point, whichever turn of the longitude the cell is written in
-        hits == IF g.car THEN {<<IdxFromN(g, N1(im, g, X + k * g.turn, y)), IdxFromN(g, N2(im, g, X + k * g.turn, y))>> : k \in TurnsTried}
+        \* (the footprint is less than a turn wide and its reference point less than a turn from the native origin)
+        hits == IF g.car THEN {<<IdxFromN(g, N1(im, g, X + k * g.turn, y)), IdxFromN(g, N2(im, g, X + k * g.turn, y))>> : k \in {-1, 0, 1}}
                 ELSE {<<col, row>>}
         ideal == {im.pix[h[2] + 1][h[1] + 1] : h \in {q \in hits : InImage(im, q[1], q[2])}}
     IN [amb |-> (g.car /\ X = 0 - g.half) \/ OnLine(g, n1) \/ OnLine(g, n2), n1 |-> n1, n2 |-> n2, col |-> col, row |-> row,
@@ -182,7 +183,7 @@ Requests(rt) ==
     LET w  == Window(rt)
         xs == TLCEval([q \in 1..(w.xhi - w.xlo + 1) |-> w.xlo + q - 1])
         ys == TLCEval([q \in 1..(w.yhi - w.ylo + 1) |-> w.ylo + q - 1])
-        x2 == Thin(xs, 2, 1)  y2 == Thin(ys, 2, 1)  x3 == Thin(xs, 2, 2)  y3 == Thin(ys, 2, 2)
+        x2 == Thin(xs, 3, 1)  y2 == Thin(ys, 3, 1)  x3 == Thin(xs, 3, 2)  y3 == Thin(ys, 3, 3)
         mx == xs[(Len(xs) + 1) \div 2]  my == ys[(Len(ys) + 1) \div 2]
         common == << Req("main", xs, ys, 0, FALSE), Req("transposed", xs, ys, 0, TRUE),
                      Req("one-row", xs, <<my>>, 0, FALSE), Req("one-column", <<mx>>, ys, 0, FALSE), Req("one-point", <<mx>>, <<my>>, 0, FALSE),
@@ -210,9 +211,11 @@ NaNInputs == <<0, 1, 2>>
 NoPixel(im) == CodeSample(im, 0, 0, FALSE).src
 \* requests the code does not answer
 BeyondPole(rt) == (rt.per * G) \div 4 + 1                   \* a CAR latitude outside [-pi/2, pi/2]
-Outcome(rq) == IF rq.dims = 0 THEN "TypeError"                               \* ScalarRequestRaises (samp[bad] = nan on a numpy scalar)
-               ELSE IF rq.latbad THEN "ValueError"                           \* LatitudeOutOfRangeRaises (SkyCoord), the whole request
-               ELSE "array"
+\* ScalarRequestRaises: for single-channel data image[idx] of a 0-d request is a numpy scalar and samp[bad] = nan fails (a colour
+\* image yields the 1-d array of the point's channels and is answered); LatitudeOutOfRangeRaises: SkyCoord refuses the whole request
+Outcome(im, rq) == IF rq.dims = 0 /\ im.ch = 1 THEN "TypeError"
+                   ELSE IF rq.latbad THEN "ValueError"
+                   ELSE "array"
 
 \* ------------------------------------------------------------------ theorems (state invariants)
 TypeOK == /\ c.proj \in {"CAR", "TAN"} /\ c.nx >= 1 /\ c.ny >= 1 /\ Det(c.cd) # 0 /\ Len(c.pix) = c.ny
@@ -254,9 +257,9 @@ PointTheorems ==
     /\ CellClosedFormT(c, tab) /\ CodeDecidesCellT(c, tab) /\ SeamOnlyLosesT(c, tab) /\ NoWrapAroundT(c, tab) /\ IndexSafeT(c, tab)
     /\ SamePictureT(c, tab, Start(root), Tab(Start(root), pts))
 NoPixelUndefined == NoPixel(c) = Undef
-\* longitude is periodic (the points of the main request, every number of turns)
+\* longitude is periodic (every second point of the main request, every number of turns)
 Periodic == LET rs == Requests(root)  g == Geo(c) IN
-            \A x \in Range(rs[1].xs), y \in Range(rs[1].ys) : \A t \in TurnsTried : Expect(c, g, x, y, t) = Expect(c, g, x, y, 0)
+            \A x \in Range(Thin(rs[1].xs, 2, 1)), y \in Range(Thin(rs[1].ys, 2, 2)) : \A t \in TurnsTried : Expect(c, g, x, y, t) = Expect(c, g, x, y, 0)
 \* sentence 3: the answer has the request's shape; sentence 5: it is element-wise (a transposed request, one row,
 \* one column, one point of the main request get the corresponding elements of the main answer)
 Elementwise ==
@@ -284,7 +287,7 @@ BoundaryHalfOpen ==
     /\ InImage(c, 0, IdxFromN(g, g.e)) /\ ~InImage(c, 0, IdxFromN(g, (2 * c.ny + 1) * g.e))
 
 \* ------------------------------------------------------------------ theorems (action properties)
-SameAnswers(a, b) == LET rs == Requests(root) IN \A n \in {1} \cup (6..Len(rs)) : Result(a, rs[n]) = Result(b, rs[n])
+SameAnswers(a, b) == LET rs == Requests(root) IN \A n \in {1, 6, Len(rs)} : Result(a, rs[n]) = Result(b, rs[n])
 FlipKeepsPicture == [][act' = "FlipParity" => (Par!Sign(c'.cd) = 0 - Par!Sign(c.cd) /\ SameAnswers(c', c))]_vars
 RotateKeepsPicture == [][act' = "Rotate" => (Par!Sign(c'.cd) = Par!Sign(c.cd) /\ SameAnswers(c', c))]_vars
 RecentreWithinKeepsPicture ==
@@ -297,8 +300,8 @@ IdealSeamless == LET tab == Tab(c, PointsOf(Requests(root))) IN \A p \in DOMAIN 
 \* the caller's numbers come back unchanged
 IdealExactValues == \A s \in 0..(c.nx * c.ny - 1), k \in 0..(c.ch - 1) : Float32(DataValue(c, s, k)) = DataValue(c, s, k)
 \* any request shape, any latitude
-IdealScalarAnswered == Outcome([dims |-> 0, latbad |-> FALSE]) = "array"
-IdealLatitudeTolerant == Outcome([dims |-> 2, latbad |-> TRUE]) = "array"
+IdealScalarAnswered == Outcome(c, [dims |-> 0, latbad |-> FALSE]) = "array"
+IdealLatitudeTolerant == Outcome(c, [dims |-> 2, latbad |-> TRUE]) = "array"
 \* the footprint is closed: a point exactly on the upper edge of the last column gets the last column
 IdealClosedFootprint == LET g == Geo(c) IN InImage(c, IdxFromN(g, (2 * c.nx + 1) * g.e), 0)
 Ideals == [IdealSeamless |-> IdealSeamless, IdealExactValues |-> IdealExactValues, IdealScalarAnswered |-> IdealScalarAnswered,
@@ -315,8 +318,8 @@ Report ==
                                     res |-> Result(c, rs[n])]],
      off |-> IF IsCar(c) THEN <<>> ELSE [n \in DOMAIN OffPlane |-> [d |-> OffPlane[n][1], ph |-> OffPlane[n][2], t |-> OffPlane[n][3], res |-> NoPixel(c)]],
      nan |-> [n \in DOMAIN NaNInputs |-> [which |-> NaNInputs[n], res |-> NoPixel(c)]],
-     scalar |-> [p |-> <<rs[5].xs[1], rs[5].ys[1]>>, outcome |-> Outcome([dims |-> 0, latbad |-> FALSE])],
-     latbad |-> IF IsCar(c) THEN [y |-> BeyondPole(root), outcome |-> Outcome([dims |-> 2, latbad |-> TRUE])]
+     scalar |-> [p |-> <<rs[5].xs[1], rs[5].ys[1]>>, outcome |-> Outcome(c, [dims |-> 0, latbad |-> FALSE]), res |-> Result(c, rs[5])[1][1]],
+     latbad |-> IF IsCar(c) THEN [y |-> BeyondPole(root), outcome |-> Outcome(c, [dims |-> 2, latbad |-> TRUE])]
                 ELSE [y |-> 0, outcome |-> "none"],
      ideals |-> Ideals]
 =============================================================================
